@@ -500,3 +500,41 @@ SPECS["C04"] = Spec(
     bounds=lambda tier: {"scopes": "2 (quick) / 1..3 (thorough)", "arity": "0..2", "signatures": C04_SIGS},
     rule="one job per (signature, scope count, plain/fast); all registration assignments relevant to the signature",
 )
+
+
+# --------------------------------------------------------------------------- C12
+C12_ROUTES = [
+    "/webapi/users", "/u/{name}", "/u/{id: /[0-9]+/}", "/u/{name}/?events", "/a_{id: /[0-9]+/}_{page: /[\\\\w]+/}.{ext: /diff|patch/}",
+    "/{paths: **}/files", "/g/{name: **, capture: 2}", "/{**}", "/p/{y: /[0-9]{4}/}-{m}-{d}.html", "/x/{a}/{b}/{c}",
+    "/u/?{opt}", "/{a}{b}", "/s/{x: /a+/, y: /b+/}",
+]
+C12_ROUNDTRIP = [
+    ["/u/{name}", "/u/{name2}/?ev"], ["/{a: /[0-9]+/}-{b}", "/{m: **}"], ["/{m: **}/e/{n: **, capture: 2}"], ["/a/?{o}", "/{x}/{y}"],
+    ["/v{x}.{e: /js|go/}"], ["/{**}"], ["/s/{x: /a+/, y: /b+/}"],
+]
+
+
+def c12_jobs(tier, seed):
+    jobs = []
+    vlen = 2 if tier == "quick" else 3
+    for r in C12_ROUTES:
+        jobs.append({"pkg_short": "route", "body": "VH_C12_urlpath", "params": {"route": r, "vlen": vlen, "maporders": 1}, "max_paths": 300000})
+    n = 5 if tier == "quick" else 7
+    for rs in C12_ROUNDTRIP:
+        jobs.append({"pkg_short": "route", "setup": "VH_Route_setup", "body": "VH_Route_match",
+                     "params": {"routes": "\n".join(rs), "n": n, "prefix": "", "roundtrip": 1, "family": "c12-roundtrip"}, "max_paths": 300000})
+    jobs.append({"pkg_short": "flamego", "body": "VH_C12_named", "params": {"vlen": vlen}})
+    return jobs
+
+
+SPECS["C12"] = Spec(
+    "C12", ROUTE_FILES + ["route/c12.go", "flamego/router.go", "route/oracle_api.go", "flamego/c12.go"], c12_jobs,
+    assumptions=ROUTING_ASSUME + [
+        "strings.NewReplacer/Replace (generic replacer: trie, sync.Once) is executed from the standard library's own SSA on symbolic values; no contract stub was needed",
+        "supplied values are symbolic byte strings (so braces, other bind names, slashes and the empty string are inside), presence of every pair symbolic, one unknown name, withOptional symbolic, map iteration orders explored",
+        "the inverse clause is asserted on the routing runs for %-free request paths",
+    ],
+    bounds=lambda tier: {"value_len": "0..%d bytes" % (2 if tier == "quick" else 3), "routes": C12_ROUTES, "roundtrip_sets": C12_ROUNDTRIP,
+                         "roundtrip_path_len": 5 if tier == "quick" else 7},
+    rule="one job per route; every assignment of presence/values; plus routing round-trip jobs",
+)
